@@ -91,11 +91,11 @@ theorem updateFromPure_congr (o : RenderOptions) (c₁ c₂ : Bool) {s₁ s₂ :
     mute (updateFromPure { o with callback := c₁ } s₁) = mute (updateFromPure { o with callback := c₂ } s₂) := by
   unfold updateFromPure
   simp only []
-  have e1 : mute (if s₁.callback then { s₁ with callback := c₁ } else s₁) = mute (if s₂.callback then { s₂ with callback := c₂ } else s₂) := by
+  have e1 : mute (if c₁ then { s₁ with callback := true } else s₁) = mute (if c₂ then { s₂ with callback := true } else s₂) := by
     rw [mute_ite_callback, mute_ite_callback, h]
   have e2 := setOptionPure_congr "reset".toList o.reset e1
-  generalize setOptionPure "reset".toList o.reset (if s₁.callback then { s₁ with callback := c₁ } else s₁) = u₁ at e2 ⊢
-  generalize setOptionPure "reset".toList o.reset (if s₂.callback then { s₂ with callback := c₂ } else s₂) = u₂ at e2 ⊢
+  generalize setOptionPure "reset".toList o.reset (if c₁ then { s₁ with callback := true } else s₁) = u₁ at e2 ⊢
+  generalize setOptionPure "reset".toList o.reset (if c₂ then { s₂ with callback := true } else s₂) = u₂ at e2 ⊢
   have e3 : mute (if c₁ then { u₁ with callback := true } else u₁) = mute (if c₂ then { u₂ with callback := true } else u₂) := by
     rw [mute_ite_callback, mute_ite_callback, e2]
   generalize (if c₁ then { u₁ with callback := true } else u₁) = v₁ at e3 ⊢
